@@ -120,3 +120,56 @@ Proof.
   rewrite crc32_ieee_mod.
   subst ext'. change (undef 8) with UNDEF. reflexivity.
 Qed.
+
+(* ---- the stored checksums ---- *)
+(* what the strict decoder demands of a stored checksum: Jenkins lookup3 (hashlittle, initial value 0) of the covered bytes *)
+Lemma check_sum_strict t covered stored tg :
+  check_sum strict t covered stored = Ok tg -> stored = hashlittle covered 0 /\ tg = [].
+Proof.
+  unfold check_sum, spec_checksum. destruct (stored =? hashlittle covered 0) eqn:E.
+  - intros H. inversion H. apply N.eqb_eq in E. auto.
+  - destruct (stored =? crc32 covered); cbn [dev strict]; discriminate.
+Qed.
+
+(* a tolerated checksum is the CRC-32 (IEEE) of the covered bytes and differs from the specification's *)
+Lemma check_sum_tolerated tol t covered stored :
+  check_sum tol t covered stored = Ok [t] -> stored = crc32 covered /\ stored <> hashlittle covered 0.
+Proof.
+  unfold check_sum, spec_checksum. destruct (stored =? hashlittle covered 0) eqn:E; [discriminate|].
+  destruct (stored =? crc32 covered) eqn:E2; [|discriminate].
+  apply N.eqb_eq in E2. apply N.eqb_neq in E. auto.
+Qed.
+
+(* what the writer stores *)
+Lemma check_sum_of_crc tol t covered :
+  check_sum tol t covered (crc32 covered) = if crc32 covered =? hashlittle covered 0 then Ok [] else dev tol t.
+Proof. unfold check_sum, spec_checksum. rewrite N.eqb_refl. reflexivity. Qed.
+
+(* smallest witness: the version 2 superblock with all addresses 0 *)
+Definition sb_witness : superblock :=
+  {| sp_version := 2; sp_offsize := 8; sp_lensize := 8; sp_base := 0; sp_root := 0; sp_superext := 0;
+     sp_rootbtree := 0; sp_rootheap := 0; sp_eof := 0 |}.
+
+Lemma sb_crc32_refuted :
+  wf_superblock sb_witness = true /\
+  spec_dec_superblock strict (enc_superblock sb_witness) = Err /\
+  spec_dec_superblock tolerant (enc_superblock sb_witness) = Ok (logical_superblock sb_witness, [T_sb_crc32], []).
+Proof. repeat split; vm_compute; reflexivity. Qed.
+
+(* versions 2/3 with the tolerant decoder: the deviation is exactly the checksum algorithm *)
+Lemma spec_superblock_v2_tolerant x : wf_superblock x = true -> sp_version x <> 0 ->
+  spec_dec_superblock tolerant (enc_superblock x) =
+    Ok (logical_superblock x,
+        if crc32 (superblock_covered x) =? hashlittle (superblock_covered x) 0 then [] else [T_sb_crc32], []).
+Proof.
+  intros W V. rewrite spec_superblock_v2 by assumption. rewrite check_sum_of_crc.
+  destruct (crc32 (superblock_covered x) =? hashlittle (superblock_covered x) 0); reflexivity.
+Qed.
+
+Lemma spec_superblock_v2_strict x : wf_superblock x = true -> sp_version x <> 0 ->
+  spec_dec_superblock strict (enc_superblock x) =
+    if crc32 (superblock_covered x) =? hashlittle (superblock_covered x) 0 then Ok (logical_superblock x, [], []) else Err.
+Proof.
+  intros W V. rewrite spec_superblock_v2 by assumption. rewrite check_sum_of_crc.
+  destruct (crc32 (superblock_covered x) =? hashlittle (superblock_covered x) 0); reflexivity.
+Qed.
